@@ -74,6 +74,7 @@ def spOf (j : Json) : SendParams :=
   let frag := match getStr? j "frag" with
     | some "consumed" => FragOut.consumed
     | some "raises" => .raises
+    | some "unsendable" => .unsendable
     | _ => .none
   { txBits := (boolList? j "tx_bits").getD [], clOk := getBoolD j "cl_ok" true, frag := frag,
     crcs := (hexList? j "crcs").getD [] }
@@ -91,9 +92,11 @@ def jeid : Eid → Json
   | .dtn b => jobj [("dtn", jhex b)]
   | .ipn l => jobj [("ipn", jarr (l.map jnat))]
 
+def jopt (o : Option Nat) : Json := match o with | some n => jnat n | none => Json.null
+
 def jident (i : Agent.Ident) : Json :=
   jobj [("src", jeid i.src), ("t", jnat i.time), ("s", jnat i.seq),
-        ("frag", match i.frag with | some (o, l) => jarr [jnat o, jnat l] | none => Json.null)]
+        ("frag", match i.frag with | some (o, l) => jarr [jnat o, jopt l] | none => Json.null)]
 
 def jreply (r : Ctr) : Json :=
   jobj [("dest", jeid r.primary.dest), ("flags", jnat r.primary.flags),
@@ -109,14 +112,12 @@ def jeffect : Effect → Json
   | .fragmented => jobj [("k", "fragmented")]
   | .escaped => jobj [("k", "escaped")]
 
-def jopt (o : Option Nat) : Json := match o with | some n => jnat n | none => Json.null
 
 def optNat (j : Json) (k : String) : Option Nat := getNat? j k
 
 def stOf (j : Json) : St :=
   let ts := (natList? j "ts").getD []
-  { stickyPrev := optNat j "sticky_prev", stickyAge := optNat j "sticky_age",
-    tsTime := ts[0]?, tsSeq := ts.getD 1 0 }
+  { tsTime := ts[0]?, tsSeq := ts.getD 1 0 }
 
 def runAll (cfg : Cfg) : St → List Ev → List Json → St × List Json
   | st, [], acc => (st, acc.reverse)
@@ -130,7 +131,6 @@ def cfgOf? (j : Json) : Option Cfg := do
 
 def jstate (st : St) : List (String × Json) :=
   [("seen", jarr (st.seen.map jident)), ("fwdq", jnat st.fwdQ.length), ("rptq", jnat st.rptQ.length),
-   ("sticky_prev", jopt st.stickyPrev), ("sticky_age", jopt st.stickyAge),
    ("ts", jarr [jopt st.tsTime, jnat st.tsSeq])]
 
 def actionsOf (j : Json) : Actions :=
